@@ -35,6 +35,9 @@ func (p propT) inLanguage() bool {
 		if t.IR != nil && ((t.IR.XMin == 2 && !t.IR.Min) || (t.IR.XMax == 2 && !t.IR.Max)) {
 			return false
 		}
+		if t.IR != nil && t.IR.Bad != 0 && (t.IR.Min || t.IR.Max) {
+			return false // bounds outside the format's range, or minimum above maximum: a semantic error
+		}
 	case "key":
 		if p.Optional && t.Ent == "primaryT" && p.Shape.Kind != "map" {
 			return false
@@ -235,6 +238,34 @@ func runC07(cfg *vh.Config) error {
 			}
 			acs = append(acs, absCase{"CService", sv.Coq(), sv.Text(), "foo/v1/service/a.p.j5s.proto", lang, lr})
 		}
+		// topics and object / oneof shells
+		msgs := func(prefix string, n int) string {
+			var sb strings.Builder
+			for i := 0; i < n; i++ {
+				fmt.Fprintf(&sb, "  message %s%d {\n    field x string\n  }\n", prefix, i)
+			}
+			return sb.String()
+		}
+		for n := 0; n <= 3; n++ {
+			acs = append(acs, absCase{fmt.Sprintf("CTopic (TPublish %d) \"\"", n), fmt.Sprintf("(TPublish %d)", n),
+				"package foo.v1\n\ntopic Thing publish {\n" + msgs("Post", n) + "}\n", "foo/v1/topic/a.p.j5s.proto", true, false})
+		}
+		for _, rr := range [][2]int{{0, 0}, {1, 0}, {0, 1}, {1, 1}} {
+			body := ""
+			if rr[0] == 1 {
+				body += "  request {\n    field x string\n  }\n"
+			}
+			if rr[1] == 1 {
+				body += "  reply {\n    field name string\n  }\n"
+			}
+			acs = append(acs, absCase{fmt.Sprintf("CTopic (TReqRes %d %d) \"j5/messaging/v1/reqres.proto\"", rr[0], rr[1]), fmt.Sprintf("(TReqRes %d %d)", rr[0], rr[1]),
+				"package foo.v1\n\ntopic Thing reqres {\n" + body + "}\n", "foo/v1/topic/a.p.j5s.proto", true, false})
+		}
+		acs = append(acs, absCase{"CTopic TUpsert \"j5/messaging/v1/upsert.proto\"", "TUpsert",
+			"package foo.v1\n\ntopic Thing upsert {\n  message UpsertThing {\n    field x string\n  }\n}\n", "foo/v1/topic/a.p.j5s.proto", true, false})
+		acs = append(acs, absCase{"CShell false false", "object", "package foo.v1\n\nobject Thing {\n  field x string\n}\n", mainProto, true, false})
+		acs = append(acs, absCase{"CShell false true", "entity object", "package foo.v1\n\nobject ThingKeys {\n  entity.entity = \"Thing\"\n  entity.part = \"KEYS\"\n  field thingId string\n}\n", mainProto, true, false})
+		acs = append(acs, absCase{"CShell true false", "oneof", "package foo.v1\n\noneof Thing {\n  option a object {\n    field x string\n  }\n}\n", mainProto, true, false})
 		obs := parallel(len(acs), "abs", caseNo,
 			func(i int) any { return map[string]any{"decl": acs[i].Coq, "files": map[string]string{mainFile: acs[i].Text}} },
 			func(i int) declObs { return observeDecl(acs[i].Text, acs[i].Path) })
@@ -248,22 +279,26 @@ func runC07(cfg *vh.Config) error {
 			switch o.Verdict {
 			case "VPanic":
 				if !a.ListReq { // the list_request panic is judged (and recorded) in the declaration stream
-					res.Fail(vh.Failure{Case: caseNo, Stream: "abs", Sig: fmt.Sprintf("C07 %s alone in a file: panic %s", a.Kind[1:], errClass(o.ErrText)), Clause: "never panics", Input: in, Got: o.ErrText})
+					res.Fail(vh.Failure{Case: caseNo, Stream: "abs", Sig: fmt.Sprintf("C07 %s alone in a file: panic %s", absKind(a.Kind), errClass(o.ErrText)), Clause: "never panics", Input: in, Got: o.ErrText})
 				}
 			case "VOther":
-				res.Fail(vh.Failure{Case: caseNo, Stream: "abs", Sig: fmt.Sprintf("C07 %s alone in a file: %s", a.Kind[1:], errClass(o.ErrText)), Clause: "generated file parses (harness expectation) / no hang", Input: in, Got: o.ErrText})
+				res.Fail(vh.Failure{Case: caseNo, Stream: "abs", Sig: fmt.Sprintf("C07 %s alone in a file: %s", absKind(a.Kind), errClass(o.ErrText)), Clause: "generated file parses (harness expectation) / no hang", Input: in, Got: o.ErrText})
 			case "VLinkErr":
-				res.Fail(vh.Failure{Case: caseNo, Stream: "abs", Sig: fmt.Sprintf("C07 %s alone in a file: link error in isolation", a.Kind[1:]), Clause: "accepted and links without depending on unrelated declarations", Input: in, Got: o.ErrText})
+				res.Fail(vh.Failure{Case: caseNo, Stream: "abs", Sig: fmt.Sprintf("C07 %s alone in a file: link error in isolation", absKind(a.Kind)), Clause: "accepted and links without depending on unrelated declarations", Input: in, Got: o.ErrText})
 			case "VConvErr":
 				if a.InLang {
-					res.Fail(vh.Failure{Case: caseNo, Stream: "abs", Sig: fmt.Sprintf("C07 %s of the documented language rejected (%s)", a.Kind[1:], errClass(o.ErrText)), Clause: "every package within the documented language is accepted", Input: in, Got: o.ErrText})
+					res.Fail(vh.Failure{Case: caseNo, Stream: "abs", Sig: fmt.Sprintf("C07 %s of the documented language rejected (%s)", absKind(a.Kind), errClass(o.ErrText)), Clause: "every package within the documented language is accepted", Input: in, Got: o.ErrText})
 				}
 			case "VOk":
 				if len(corpus) < 500 {
 					corpus = append(corpus, content)
 				}
 			}
-			cf.Terms = append(cf.Terms, fmt.Sprintf("%s %s %s %s %s", a.Kind, a.Coq, o.Verdict, coqStrList(o.Imports), coqStrList(o.Exts)))
+			if strings.HasPrefix(a.Kind, "CTopic") || strings.HasPrefix(a.Kind, "CShell") {
+				cf.Terms = append(cf.Terms, fmt.Sprintf("%s %s %s %s", a.Kind, o.Verdict, coqStrList(o.Imports), coqStrList(o.Exts)))
+			} else {
+				cf.Terms = append(cf.Terms, fmt.Sprintf("%s %s %s %s %s", a.Kind, a.Coq, o.Verdict, coqStrList(o.Imports), coqStrList(o.Exts)))
+			}
 			res.Cases = append(res.Cases, vh.CaseRec{Case: caseNo, Stream: "abs", Input: in, Impl: o})
 			caseNo++
 		}
@@ -306,7 +341,7 @@ func runC07(cfg *vh.Config) error {
 			if strings.HasPrefix(c.Err.Error(), "resolve file") {
 				kind = "link error in isolation"
 			}
-			res.Fail(vh.Failure{Case: caseNo, Stream: "decl", Sig: fmt.Sprintf("C07 decl %s: %s (%s)", d.Name, kind, errClass(c.Err.Error())), Clause: "every package within the documented language is accepted and links", Input: in, Got: c.Err.Error()})
+			res.Fail(vh.Failure{Case: caseNo, Stream: "decl", Sig: fmt.Sprintf("C07 decl %s: %s (%s)", d.Name, kind, truncate(strings.TrimPrefix(errClass(c.Err.Error()), "loadPackage I: loadLocalPackage I: "), 60)), Clause: "every package within the documented language is accepted and links", Input: in, Got: c.Err.Error()})
 		default:
 			res.Count("decl_ok")
 			corpus = append(corpus, d.Files)
@@ -464,6 +499,15 @@ func runC07(cfg *vh.Config) error {
 	}
 	res.Shards = shards
 	return res.Write(cfg.Out)
+}
+
+// absKind: "CTopic (TPublish 1) ..." -> "Topic"
+func absKind(k string) string {
+	k = strings.TrimPrefix(k, "C")
+	if i := strings.IndexByte(k, ' '); i > 0 {
+		k = k[:i]
+	}
+	return k
 }
 
 func truncate(s string, n int) string {
